@@ -138,6 +138,29 @@ Definition s_rstrip (a chars : str) : str := rev ((fix go l := match l with [] =
 Definition s_lstrip (a chars : str) : str := rev (s_rstrip (rev a) chars).
 Definition s_strip (a chars : str) : str := s_rstrip (s_lstrip a chars) chars.
 
+(* translate: every character is replaced by the partner of its first occurrence in the table *)
+Definition translate_c (table : list (Z * Z)) (c : Z) : Z :=
+  match List.find (fun p => (fst p =? c)%Z) table with Some p => snd p | None => c end.
+Definition s_translate (a : str) (table : list (Z * Z)) : str := map (translate_c table) a.
+
+(* zfill: numeric strings only (str::parse::<f64>() succeeds).  The grammar modelled here is the one the check's
+   generator draws from: an optional sign, then digits with an optional point and optional further digits, or a point
+   followed by digits; other spellings f64 accepts (exponents, inf, nan) are outside the generator's alphabet *)
+Definition all_digits (s : str) : bool := forallb is_digit_c s.
+Definition is_simple_number (s : str) : bool :=
+  let body := match s with c :: t => if ((c =? 43) || (c =? 45))%Z then t else s | [] => s end in
+  match find body [46%Z] with
+  | None => negb (length body =? 0) && all_digits body
+  | Some i => let ip := firstn i body in let fp := skipn (S i) body in
+              all_digits ip && all_digits fp && negb ((length ip =? 0) && (length fp =? 0))
+  end.
+(* width - prefix.len() saturates (the C09 repair); zeros are put in front of the digits, after a leading '-' *)
+Definition s_zfill (a : str) (width : nat) : str :=
+  match a with
+  | 45%Z :: t => 45%Z :: repeat 48%Z ((width - 1) - length t) ++ t
+  | _ => repeat 48%Z (width - length a) ++ a
+  end.
+
 (* splitlines: \n, \r and \r\n end a line; a final unterminated line is kept *)
 Fixpoint splitlines_f (s cur : str) (keep : bool) : list str :=
   match s with
